@@ -13,6 +13,9 @@ import W2c2Verif.Lemmas.SpecInt
 namespace W2c2Verif.Props.C01
 open W2c2Verif
 
+/-- `cases_ite` that also decides a scalar used directly as a condition (`!(y)` for `(y) == 0`: the same test, C99 6.5.3.3p5) -/
+local macro "cases_ite" : tactic => `(tactic| (repeat' split) <;> (try simp_all [CVal.truthy]) <;> (try decide))
+
 /-! ## division and remainder, with trap codes -/
 
 theorem i32_div_s_correct (x y : BitVec 32) :
